@@ -98,9 +98,13 @@ def run_case(cls, key, seed, ctx):
         ctx.ev("sklearn_estimator_fits")
     else:
         to, X, sf = TL.fit_optimizer(g, y, s, constraint, objective, flip, gs, rng, hostile=hostile, extra_cols=int(rng.integers(0, 2)) if hostile else 0)
-    mech_suffix = ":adjacent_float_scores" if cls == "adjacent" else ""
     before = len(ctx.violations)
     check_equalised(ctx, to, X, sf, g, y, s, constraint, wit)
-    if mech_suffix:
+    if cls == "adjacent":
+        # structural precondition of the known finding: some group holds two DISTINCT scores that are adjacent floats
+        # (their midpoint is not strictly between them, so no threshold of the form (a+b)/2 separates them)
+        adj = any(b == np.nextafter(a, np.inf) for gv in set(g) for a in {s[i] for i in range(len(s)) if g[i] == gv}
+                  for b in {s[i] for i in range(len(s)) if g[i] == gv})
         for v in ctx.violations[before:]:
-            v["mech"] += mech_suffix
+            if adj and v["mech"].startswith("constrained_metric_not_equal_across_groups"):
+                v["mech"] = "parity_broken_when_a_group_has_adjacent_float_scores"
